@@ -196,7 +196,9 @@ def run_case(case):
         noise = 256 * eps * scale * (1 + smax_row)
         r.worst("max_row_slope", float(smax_row.max()))
         # ---- range
-        out_of = inside & ok & ((y < olo - noise) | (y > ohi + noise))
+        # strict: one ulp outside is already rejected by whatever bounded transform comes next (a Logit after a CDF raised
+        # InputOutsideDomain for valid data, fixes 9265afa / c9c80e2); all four splines clamp, so no allowance is due
+        out_of = inside & ok & ((y < olo) | (y > ohi))
         if out_of.any():
             i, j = first(out_of)
             r.viol("range", "spline %s leaves its output interval" % fam, x=float(x[i, j]), y=float(y[i, j]),
